@@ -299,3 +299,11 @@ func abbreviate(s string, n int) string {
 func trimJSONSpace(b []byte) []byte {
 	return bytes.Trim(b, " \t\n\r")
 }
+
+func sortInts(s []int) {
+	for i := 1; i < len(s); i++ {
+		for j := i; j > 0 && s[j] < s[j-1]; j-- {
+			s[j], s[j-1] = s[j-1], s[j]
+		}
+	}
+}
